@@ -98,12 +98,8 @@ def run(ctx):
     ctx.floor("C08.bitmap-arith", "NULL bitmap tests", nb, 1)
     # flag byte, type table (entry i = byte 1+2i / bit 7 of byte 2+2i after the flag), value-cursor start, per-statement table,
     # rebind discipline: C16's cursor rules are part of this property's layout claim too
-    import rules.C16 as C16
-    C16.run(ctx)
     # a parameter sent as long data is one of the values the client bound: which chunks are stored, where, and that the
     # iterator takes them instead of inline bytes (C17's rules) decide whether the following parameters stay aligned
-    import rules.C17 as C17
-    C17.run(ctx)
 
     # ---- value layouts -----------------------------------------------------------------------------
     ct = [a for k_, a in prog.adts.items() if k_.endswith("constants::ColumnType")][0]
@@ -319,8 +315,37 @@ def run(ctx):
                    fn=b.path, construct="remaining-length-test", where=b.where(blk), key_extra={"K": K, "consumed": c})
         ctx.floor("C08.length-forms", "length tests in the %s converter" % tyname, nlen, 1)
 
+    # TIME carries a sign byte (first byte of the 8/12-byte forms); both of its values are legal, so the converter must yield a
+    # value on both: a branch on that byte whose non-zero edge only diverges (unimplemented!/panic) crashes on a negative TIME
+    db = prog.find(r"^value::decode::<impl std::convert::From<value::decode::Value<'a>> for std::time::Duration>::from$")
+    if ctx.floor("C08.length-forms", "the Duration converter", len(db), 1):
+        b = db[0]
+        nsign = 0
+        for bb in range(b.n):
+            t = b.term(bb)
+            if t["k"] != "switch" or b.is_cleanup(bb) or "0" not in t["vals"]:
+                continue
+            v = b.origin_op(t["discr"], bb, len(b.blocks[bb]["stmts"]))
+            if not (isinstance(v, tuple) and v[0] == "bin" and v[1] in ("Ne", "Eq") and T.is_const_int(v[3], 0) and
+                    T.contains(v[2], lambda x: T.is_call(x, r"ReadBytesExt::read_u8$"))):
+                continue
+            # the first byte read from the value: no earlier cursor read dominates this one
+            rd = T.find(v[2], lambda x: T.is_call(x, r"ReadBytesExt::read_u8$"))
+            rsite = rd[3][1] if len(rd) > 3 and isinstance(rd[3], tuple) else None
+            earlier = [x for x, tt in b.calls() if re.search(r"ReadBytesExt::read_\w+$", tt["func"]["path"]) and x != rsite and rsite is not None and b.dominates(x, rsite)]
+            if earlier:
+                continue
+            nsign += 1
+            zt = t["tgts"][t["vals"].index("0")]
+            nz = t["otherwise"]
+            # for `neg != 0` the non-zero value of the switch operand (true) is the otherwise edge; for `neg == 0` it is the 0 edge
+            neg_edge = t["otherwise"] if v[1] == "Ne" else zt
+            reach = b.reachable(neg_edge)
+            returns = any(b.term(x)["k"] == "return" for x in reach)
+            ctx.ob("C08.length-forms", returns, "From<Value> for Duration: a TIME whose sign byte is set (a negative TIME, legal on the wire) only reaches a diverging branch (unimplemented!/panic): the conversion panics",
+                   fn=b.path, construct="negative-time", where=b.where(bb), sample={"rule": "length-forms/sign", "returns_on_negative": returns})
+        ctx.floor("C08.length-forms", "tests of the TIME sign byte", nsign, 1)
+
     # what the shim is handed is what the reader reassembled: the inbound reassembly clauses (C01's rules: window
     # invariant, parse-before-wait, short-is-not-error, framing constants) are part of `verbatim` / `exactly what the client sent`
-    import rules.C01 as C01
-    C01.run(ctx, configs=["tls"])
 
